@@ -8,6 +8,8 @@ import json
 
 from .. import dump, gen
 from . import construct as C
+from . import formats
+from .. import formats as doc_formats
 
 ALLOWED_ERRORS = ("TypeError", "ValueError", "InvalidStructureErr", "IndexError", "KeyError")
 
@@ -353,6 +355,38 @@ def gen_cases_ext(rng, tier, n_classes, immutable=False):
         if not wrapped:
             continue
         ops, taken = [], []
+        # format-checking string fields (DateString, TimeString, IPV4, HostName, JSONString): on the wire a String whose
+        # pattern is a synthetic token; the model's regex oracle is answered for it by suites/formats.py
+        fmt_ops = []
+        if rng.random() < 0.45:
+            case = dict(case, cls=json.loads(json.dumps(case["cls"])), kw=list(case["kw"]))
+            fields = case["cls"]["fields"]
+            fmt = rng.choice(["date:%Y-%m-%d", "date:%d/%m/%Y", "time", "ipv4", "hostname", "json"])
+            good = [v for v in formats.POOL if doc_formats.ok(fmt, v)]
+            fields.append(["z", {"k": "string", "fmt": fmt}])
+            fields.append(["y", {"k": "seqOf", "item": {"k": "string", "fmt": fmt}}])
+            if rng.random() < 0.5:
+                case["cls"]["required"] = sorted(case["cls"]["required"] + ["z"])
+                case["kw"].append(["z", rng.choice(good)])
+            elif rng.random() < 0.6:
+                case["kw"].append(["z", rng.choice(good)])
+            if rng.random() < 0.7:
+                case["kw"].append(["y", {"l": [rng.choice(good) for _ in range(rng.randint(0, 2))]}])
+            C.fix_accepts(case["cls"])
+            pick = lambda: rng.choice(good) if rng.random() < 0.4 else rng.choice(formats.POOL + [5, None, True, {"l": []}])
+            for _ in range(rng.randint(2, 5)):
+                q = rng.random()
+                if q < 0.5:
+                    fmt_ops.append({"op": "setattr", "f": "z", "v": pick()})
+                elif q < 0.6:
+                    fmt_ops.append({"op": "setattr", "f": "y", "v": {"l": [pick() for _ in range(rng.randint(0, 2))]}})
+                elif q < 0.9:
+                    m = rng.choice(["append", "insert", "extend", "__setitem__", "__iadd__"])
+                    args = {"append": [pick()], "insert": [0, pick()], "extend": [{"l": [pick()]}], "__setitem__": [0, pick()],
+                            "__iadd__": [{"l": [pick(), pick()]}]}[m]
+                    fmt_ops.append({"op": "call", "f": "y", "m": m, "args": args})
+                else:
+                    fmt_ops.append({"op": "delitem", "f": "z"})
         for op in case["ops"] + [None] * rng.randint(1, 3):
             for _ in range(rng.choice([0, 1, 1, 2])):
                 nm, fd = rng.choice(wrapped)
@@ -408,6 +442,36 @@ def gen_cases_ext(rng, tier, n_classes, immutable=False):
                             ops.append({"op": "callNested", "f": nm, "k": k, "m": call[0], "args": call[1], **call[2]})
             if op is not None:
                 ops.append(op)
+        for fo in fmt_ops:
+            ops.insert(rng.randrange(len(ops) + 1), fo)
+        # typed wrappers at nesting depth 2 and 3 (x.w[i][j].append(v)): addressed by a path of keys
+        if rng.random() < 0.35 and not any(n == "w" for n, _ in case["cls"]["fields"]):
+            case = dict(case, cls=json.loads(json.dumps(case["cls"])), kw=list(case["kw"]))
+            leaf = rng.choice([{"k": "integer"}, {"k": "string"}, {"k": "integer", "min": [0, 1]}])
+            inner = rng.choice([{"k": "seqOf", "item": leaf}, {"k": "seqOf", "item": leaf, "seq": "deque"},
+                                {"k": "mapOf", "key": {"k": "string"}, "val": leaf}])
+            mid = rng.choice([{"k": "seqOf", "item": inner}, {"k": "mapOf", "key": {"k": "string"}, "val": inner},
+                              {"k": "seqOf", "item": inner, "maxItems": 2}])
+            top = rng.choice([{"k": "seqOf", "item": mid}, {"k": "mapOf", "key": {"k": "string"}, "val": mid}])
+            case["cls"]["fields"].append(["w", top])
+            C.fix_accepts(case["cls"])
+            lv = lambda: 1 if leaf["k"] == "integer" else "s"
+            mk_inner = lambda: {"m": [["k", lv()]]} if inner["k"] == "mapOf" else ({"q": [lv()]} if inner.get("seq") == "deque" else {"l": [lv()]})
+            mk_mid = lambda: {"m": [["a", mk_inner()]]} if mid["k"] == "mapOf" else {"l": [mk_inner()]}
+            case["kw"].append(["w", {"m": [["t", mk_mid()]]} if top["k"] == "mapOf" else {"l": [mk_mid()]}])
+            k1 = "t" if top["k"] == "mapOf" else 0
+            k2 = "a" if mid["k"] == "mapOf" else 0
+            from extract import wrappers as _wr
+            skip_deep = bool(case["cls"].get("immutable")) and nested_bound_now() and not _wr.nested_deep_immutable()
+            for _ in range(rng.randint(2, 5)):
+                deep = rng.random() < 0.7
+                decl, path = (inner, [k1, k2]) if deep else (mid, [k1])
+                if rng.random() < 0.12:
+                    path = path[:-1] + [rng.choice([5, "nokey"])]
+                call = gen_ext_call(rng, vg, tbl, wrapper_kind(decl), decl, None)
+                pos = rng.randrange(len(ops) + 1)
+                if call and not (deep and skip_deep):
+                    ops.insert(pos, {"op": "callNested", "f": "w", "k": {"l": path}, "m": call[0], "args": call[1], **call[2]})
         ext = dict(case, ops=ops, ext=True)
         # a hook of the second family: "one of these fields must hold a value", over fields the start instance holds,
         # with operations that try to clear them (None assignment, deletion)
@@ -422,6 +486,16 @@ def gen_cases_ext(rng, tier, n_classes, immutable=False):
         ext["re"] = gen.re_table(case["cls"], case["kw"], ops)
         out.append(ext)
     return out
+
+
+_NB = {}
+
+
+def nested_bound_now():
+    from extract import wrappers
+    if "v" not in _NB:
+        _NB["v"] = wrappers.nested_bound()
+    return _NB["v"]
 
 
 def bound_cases():
@@ -471,7 +545,13 @@ def do_op(x, op, ctx, refs=None):
         outer = getattr(x, op["f"])
         if outer is None:
             raise AttributeError("field is not set")     # canonical "no value to operate on"
-        invoke(outer[k], op, ctx)
+        if isinstance(k, list):      # a path of keys: x.f[k1][k2]...
+            target = outer
+            for kk in k:
+                target = target[kk]
+            invoke(target, op, ctx)
+        else:
+            invoke(outer[k], op, ctx)
     elif name == "take":
         # a take that finds no wrapper still occupies its position (None), so that later positions do not shift
         w = getattr(x, op["f"]) if op["f"] in x.__dict__ else None
@@ -550,6 +630,8 @@ def line(case, impl):
         l["nestedBound"] = case["nestedBound"]
     if case.get("hookNeed"):
         l["hookNeed"] = case["hookNeed"]
+    if case.get("reOverride"):
+        l["reOverride"] = case["reOverride"]
     if "steps" in impl:
         # ops whose arguments could not even be built are dropped on both sides
         keep = [i for i, s in enumerate(impl["steps"]) if s["out"] != "unbuildable-arg"]
@@ -568,6 +650,11 @@ def op_site(case, op):
         return f"{wrapper_kind(fd) if fd else '?'}.{op['m']}"
     if op["op"] == "callNested":
         ed = elem_decl(coll_option(fd)) if fd else None
+        k = op.get("k")
+        if isinstance(k, dict) and "l" in k:      # a path: follow the declarations
+            ed = coll_option(fd) if fd else None
+            for _ in k["l"]:
+                ed = elem_decl(ed) if ed else None
         return f"nested-{wrapper_kind(ed) if ed else '?'}.{op['m']}"
     if op["op"] == "setattr":
         return "setattr:" + (fd["k"] if fd else "non-field")
